@@ -362,10 +362,11 @@ structure InsGroup where
   highB : Nat
   deriving Repr
 
-def diffRules (diff : Differ) (fuel : Nat) (st : St) (a b : Vsys) (aRules bRules : List Rule) : St :=
-  let rs := diff aRules.length bRules.length
-    (fun i j => ruleEqual a b (aRules.getD i default) (bRules.getD j default))
-  let (st, _, inserts) := rs.foldl (fun (acc : St × Nat × List InsGroup) r =>
+/-- First loop of `diffRules`: deletes and equalisations in range order; inserts are only
+collected (`delIdx` is the index after the rules deleted last). -/
+def rulePhase1 (diff : Differ) (fuel : Nat) (a b : Vsys) (aRules bRules : List Rule)
+    (rs : List Range) (st : St) : St × Nat × List InsGroup :=
+  rs.foldl (fun (acc : St × Nat × List InsGroup) r =>
     let (st, delIdx, inserts) := acc
     match r.kind with
     | .del =>
@@ -378,6 +379,10 @@ def diffRules (diff : Differ) (fuel : Nat) (st : St) (a b : Vsys) (aRules bRules
       let st := (List.range (r.highA - r.lowA)).foldl (fun st k =>
         equalize diff fuel st (aRules.getD (r.lowA + k) default) (bRules.getD (r.lowB + k) default)) st
       (st, delIdx, inserts)) (st, 0, [])
+
+/-- Second loop of `diffRules`: every collected rule is appended (`set`) and, unless it belongs
+at the end, moved before its anchor. -/
+def rulePhase2 (st : St) (bRules : List Rule) (inserts : List InsGroup) : St :=
   inserts.foldl (fun st ins =>
     (bRules.extract ins.lowB ins.highB).foldl (fun st ru =>
       let (src, st) := adaptGroups st ru.src
@@ -386,6 +391,49 @@ def diffRules (diff : Differ) (fuel : Nat) (st : St) (a b : Vsys) (aRules bRules
       match ins.anchor with
       | some dst => st.emit (.move ru.name dst)
       | none => st) st) st
+
+def diffRules (diff : Differ) (fuel : Nat) (st : St) (a b : Vsys) (aRules bRules : List Rule) : St :=
+  let rs := diff aRules.length bRules.length
+    (fun i j => ruleEqual a b (aRules.getD i default) (bRules.getD j default))
+  let (st, _, inserts) := rulePhase1 diff fuel a b aRules bRules rs st
+  rulePhase2 st bRules inserts
+
+/-! #### The rule-order skeleton of `diffRules` as pure functions of the script -/
+
+/-- Names of the device rules deleted, in the order of the delete requests. -/
+def delNamesOf (a : List String) : List Range → List String
+  | [] => []
+  | r :: rs =>
+    match r.kind with
+    | .del => a.extract r.lowA r.highA ++ delNamesOf a rs
+    | _ => delNamesOf a rs
+
+/-- The insert groups with their anchors (`d` = `delIdx`). -/
+def insGroupsFrom (a : List String) : Nat → List Range → List InsGroup
+  | _, [] => []
+  | d, r :: rs =>
+    match r.kind with
+    | .del => insGroupsFrom a r.highA rs
+    | .ins => ⟨a[max r.lowA d]?, r.lowB, r.highB⟩ :: insGroupsFrom a d rs
+    | .eq => insGroupsFrom a d rs
+
+/-- What remains of the device's rule list after the deletes. -/
+def survivors (a : List String) : List Range → List String
+  | [] => []
+  | r :: rs =>
+    match r.kind with
+    | .eq => a.extract r.lowA r.highA ++ survivors a rs
+    | _ => survivors a rs
+
+/-- The rule sequence the target asks for, in device names for kept rules and new names for
+inserted ones. -/
+def targetOrder (a b : List String) : List Range → List String
+  | [] => []
+  | r :: rs =>
+    match r.kind with
+    | .del => targetOrder a b rs
+    | .ins => b.extract r.lowB r.highB ++ targetOrder a b rs
+    | .eq => a.extract r.lowA r.highA ++ targetOrder a b rs
 
 /-! ### `transferNeededObjects`, `removeUnneededObjects` -/
 
